@@ -1,15 +1,17 @@
 #!/bin/sh
+# (ROUND=<n> selects /tmp/mut/out<n>; default 3)
 # usage: round3.sh verify Cxx   : confirm the five round-3 changes of Cxx in its scratch worktree
 #        round3.sh matrix [Cxx] : run the property's check against each change
 #        round3.sh keep Cxx v   : copy a verified change to /verif/seeded/Cxx-r3<v>/
-O=/tmp/mut/out3
+R=${ROUND:-3}
+O=/tmp/mut/out$R
 case "$1" in
 verify)
-  P=$2; mkdir -p /tmp/mut/v3
+  P=$2; mkdir -p /tmp/mut/v$R
   for v in b1 b2 q1 q2 q3; do
     [ -d $O/$P/$v ] && /verif/tools/verify_seed2.sh $O/$P/$v /tmp/mut/$P
-  done > /tmp/mut/v3/$P.txt 2>&1
-  cat /tmp/mut/v3/$P.txt ;;
+  done > /tmp/mut/v$R/$P.txt 2>&1
+  cat /tmp/mut/v$R/$P.txt ;;
 matrix)
   for p in ${2:-$(ls $O)}; do
     [ -d $O/$p/b1 ] || continue
@@ -17,19 +19,19 @@ matrix)
   done | sort
   wait ;;
 keep)
-  P=$2; V=$3; S=$O/$P/$V; D=/verif/seeded/$P-r3$V
-  grep -q "out3/$P/$V OK" /tmp/mut/v3/$P.txt || { echo "not verified: $P/$V"; exit 1; }
+  P=$2; V=$3; S=$O/$P/$V; D=/verif/seeded/$P-r$R$V
+  grep -q "out$R/$P/$V OK" /tmp/mut/v$R/$P.txt || { echo "not verified: $P/$V"; exit 1; }
   mkdir -p "$D"; cp "$S/patch.diff" "$S/meta.json" "$D/"
   for f in demo.py equiv.py; do [ -f "$S/$f" ] && cp "$S/$f" "$D/"; done
   for f in "$S"/orig_*.py; do [ -f "$f" ] && cp "$f" "$D/"; done
-  /venv/bin/python - "$D" "$P" "$V" <<'PY'
+  /venv/bin/python - "$D" "$P" "$V" "$R" <<'PY'
 import json, sys
-d, p, v = sys.argv[1:]
+d, p, v, rnd = sys.argv[1:]
 m = json.load(open(d + "/meta.json"))
 m["property"] = p
 m["kind"] = "breaking" if v.startswith("b") else "preserving"
-m["round"] = 3
-line = [l for l in open("/tmp/mut/v3/%s.txt" % p) if "/%s/%s " % (p, v) in l]
+m["round"] = int(rnd)
+line = [l for l in open("/tmp/mut/v$R/%s.txt" % p) if "/%s/%s " % (p, v) in l]
 m["confirmed_by_me"] = ("tools/verify_seed2.sh in a scratch worktree: " + " ".join(line[0].split()[1:])) if line else ""
 json.dump(m, open(d + "/meta.json", "w"), indent=1)
 PY
